@@ -13,6 +13,15 @@ func vC02Run(w *vWorld, orders bool) {
 	vMapOrder(orders)
 	err := ExpandSpec(root, &ExpandOptions{RelativeBase: w.root, PathLoader: w.loader, AbsoluteCircularRef: abs})
 	vMapOrder(false)
+	// "a $ref is always interpreted relative to the document that textually contains it": whatever the
+	// outcome, the loader is only ever asked for documents that some $ref of the specification designates
+	allowed := w.allowedLoads()
+	for _, l := range w.loads {
+		if !allowed[l] {
+			vNote("loaded: " + l)
+		}
+		vAssert(allowed[l], "the loader was asked for a document that no $ref of the specification designates (a reference was read relative to the wrong document)")
+	}
 	if err != nil {
 		vNote("expansion error: " + err.Error())
 		return // the property is about successful expansions (errors: C08)
@@ -30,10 +39,16 @@ func vC02Run(w *vWorld, orders bool) {
 	vAssert(same, "expansion changed the meaning of the specification (unfoldings differ)")
 }
 
-func vh_C02_schemas() { vC02Run(vWorldSchemas(), true) }
+func vh_C02_schemas()         { vC02Run(vWorldSchemas(), true) }
 func vh_C02_chain_params()    { vC02Run(vWorldChains(0), vParam("chain_orders", 1) == 1) }
 func vh_C02_chain_responses() { vC02Run(vWorldChains(1), vParam("chain_orders", 1) == 1) }
 func vh_C02_chain_pathitems() { vC02Run(vWorldChains(2), vParam("chain_orders", 1) == 1) }
+
+func vh_C02_imports_params()    { vC02Run(vWorldImports(0), vParam("import_orders", 0) == 1) }
+func vh_C02_imports_responses() { vC02Run(vWorldImports(1), vParam("import_orders", 0) == 1) }
+
+func vh_C02_imports_item() { vC02Run(vWorldImports(2), vParam("import_orders", 0) == 1) }
+func vh_C02_ops()          { vC02Run(vWorldOps(false), false) }
 
 func vh_C02_ports()     { vC02Run(vWorldPorts(), true) }
 func vh_C02_casetwins() { vC02Run(vWorldCaseTwins(), true) }
